@@ -31,7 +31,7 @@ static int mv_by_name(const std::string &s) {
     fprintf(stderr, "unknown mpi variant %s\n", s.c_str()); exit(2);
 }
 
-struct Cfg { std::vector<int> variants; std::vector<int> Ps; int bound = 1; int layout_mode = 0; uint64_t max_exec = 500000; bool baton_rev = false; };
+struct Cfg { std::vector<int> variants; std::vector<int> Ps; int bound = 1; int layout_mode = 0; uint64_t max_exec = 500000; bool baton_rev = false; int outcome_bound = 1 << 30; };
 
 // layout menu: permutation number -> slot order. 0 = identity (allocation order = address order)
 static std::vector<std::vector<int>> layout_menu(int m, int mode) {
@@ -144,8 +144,8 @@ static void explore_input(vr::Runner &R, const Cfg &cfg, const vg::EdgeList &el,
             }
             return true;
         };
-        vx::DfsStats st = vx::dfs(one, 0, cfg.max_exec);
-        if (cfg.bound > 0 && reported == 0) st = vx::dfs(one, cfg.bound, cfg.max_exec);
+        vx::DfsStats st = vx::dfs(one, 0, cfg.max_exec, cfg.outcome_bound);
+        if (cfg.bound > 0 && reported == 0) st = vx::dfs(one, cfg.bound, cfg.max_exec, cfg.outcome_bound);
         R.count(C_EXEC, st.executions); R.count(C_POINTS, st.choice_points); R.count(C_STATES, st.choice_points + st.executions);
         R.count(C_COLLECTIVES, coll); R.count(C_MULTI, multi); R.count(C_PRUNED, st.pruned_by_bound); R.count(C_LAYOUT_DEV, ldev);
         if (st.capped) R.count(C_CAPPED_INPUTS);
@@ -163,6 +163,7 @@ int main(int argc, char **argv) {
     cfg.layout_mode = (int) A.geti("layouts", 0);
     cfg.max_exec = (uint64_t) A.geti("max-exec", 500000);
     cfg.baton_rev = A.has("baton-rev");
+    if (A.has("outcome-bound")) cfg.outcome_bound = (int) A.geti("outcome-bound", 1);
     vr::Runner R;
     R.nworkers = (int) A.geti("workers", 16);
     R.hang_limit_s = 600;
@@ -188,10 +189,13 @@ int main(int argc, char **argv) {
     int n = (int) A.geti("n", 0);
     std::vector<std::string> fams;
     if (A.has("families")) fams = vr::split(A.get("families"), ',');
-    uint64_t total_units = fams.empty() ? vg::num_graphs(n) : fams.size();
+    uint64_t ngraphs = fams.empty() ? vg::num_graphs(n) : fams.size();
+    // dense graphs have many weightings: a unit is (graph, chunk of weightings) so that one graph is spread over all workers
+    uint64_t wchunks = (uint64_t) A.geti("wchunks", 1);
+    uint64_t total_units = ngraphs * wchunks;
     uint64_t seed = (uint64_t) A.geti("seed", 0);
     int min_dim = (int) A.geti("min-dim", 0);
-    auto unit_graph = [&](uint64_t u) { uint64_t uu = (u + seed) % total_units; return fams.empty() ? vg::graph_from_mask(n, uu) : vg::family(fams[uu]); };
+    auto unit_graph = [&](uint64_t u) { uint64_t uu = ((u / wchunks) + seed) % ngraphs; return fams.empty() ? vg::graph_from_mask(n, uu) : vg::family(fams[uu]); };
     auto describe = [&](uint64_t u, uint64_t sub, uint64_t) { vg::EdgeList el = unit_graph(u); std::vector<double> w; vg::weighting(alpha, el.m(), sub, w); return std::make_pair(std::string("mpi entry point"), vg::case_string(el, w)); };
     auto work = [&](uint64_t u, uint64_t start_sub) {
         vg::EdgeList el = unit_graph(u);
@@ -201,6 +205,7 @@ int main(int argc, char **argv) {
         uint64_t nw = vg::num_weightings(alpha, el.m());
         std::vector<double> w;
         for (uint64_t s = start_sub; s < nw; ++s) {
+            if (s % wchunks != u % wchunks) continue;
             vg::weighting(alpha, el.m(), s, w);
             R.sh->crumbs[R.worker_id].sub.store(s);
             R.count(C_INPUTS); if (dim >= 1) R.count(C_NONTRIV);
@@ -216,10 +221,10 @@ int main(int argc, char **argv) {
     FILE *o = A.has("out") ? fopen(A.get("out").c_str(), "w") : stdout;
     fprintf(o, "{\"harness\":\"sched_mpi\",\"evaluations\":%" PRIu64 ",\"inputs\":%" PRIu64 ",\"distinct_nontrivial\":%" PRIu64 ",\"schedules\":%" PRIu64 ",\"states\":%" PRIu64 ",\"transitions\":%" PRIu64
             ",\"collectives_executed\":%" PRIu64 ",\"reduce_max_outcomes\":%" PRIu64 ",\"reduce_multi_outcome_calls\":%" PRIu64 ",\"executions_with_nonidentity_layout\":%" PRIu64 ",\"deadlock_states\":%" PRIu64
-            ",\"max_choice_points_in_one_execution\":%" PRIu64 ",\"inputs_hitting_execution_cap\":%" PRIu64 ",\"alternatives_pruned_by_deviation_bound\":%" PRIu64 ",\"deviation_bound\":%d,\"layout_mode\":%d"
+            ",\"max_choice_points_in_one_execution\":%" PRIu64 ",\"inputs_hitting_execution_cap\":%" PRIu64 ",\"alternatives_pruned_by_deviation_bound\":%" PRIu64 ",\"deviation_bound\":%d,\"outcome_bound\":%d,\"layout_mode\":%d"
             ",\"units_total\":%" PRIu64 ",\"units_done\":%" PRIu64 ",\"capped\":%s,\"crashes\":%" PRIu64 ",\"hangs\":%" PRIu64 ",\"nviol\":%" PRIu64 ",\"wall_s\":%.3f,\n\"samples\":[",
             R.counter(C_EXEC), R.counter(C_INPUTS), R.counter(C_EXEC), R.counter(C_EXEC), R.counter(C_STATES), R.counter(C_POINTS), R.counter(C_COLLECTIVES), R.counter(C_MAXOUT), R.counter(C_MULTI),
-            R.counter(C_LAYOUT_DEV), R.counter(C_DEADLOCKS), R.counter(C_MAXTRACE), R.counter(C_CAPPED_INPUTS), R.counter(C_PRUNED), cfg.bound, cfg.layout_mode,
+            R.counter(C_LAYOUT_DEV), R.counter(C_DEADLOCKS), R.counter(C_MAXTRACE), R.counter(C_CAPPED_INPUTS), R.counter(C_PRUNED), cfg.bound, cfg.outcome_bound, cfg.layout_mode,
             res.units_total, res.units_done, (res.capped || R.counter(C_CAPPED_INPUTS)) ? "true" : "false", res.crashes, res.hangs, res.nviol, wall);
     for (size_t i = 0; i < samples.size(); ++i) fprintf(o, "%s\"%s\"", i ? "," : "", vr::json_escape(samples[i]).c_str());
     fprintf(o, "],\n\"violations\":[");
